@@ -8,6 +8,7 @@ use ast_grep_config::RuleConfig;
 use codespan_reporting::files::SimpleFile;
 
 use std::borrow::Cow;
+use std::collections::HashMap;
 use std::ops::Range;
 use std::path::{Path, PathBuf};
 
@@ -16,6 +17,9 @@ pub struct InteractivePrinter<P: Printer> {
   from_stdin: bool,
   committed_cnt: usize,
   inner: P,
+  /// Edits already written per file. One file can yield several payloads, one per document
+  /// (e.g. html and its embedded js/css), and every payload is based on the original text.
+  rewritten: HashMap<PathBuf, Vec<InteractiveDiff<()>>>,
 }
 
 impl<P: Printer> InteractivePrinter<P> {
@@ -28,6 +32,7 @@ impl<P: Printer> InteractivePrinter<P> {
         from_stdin,
         inner,
         committed_cnt: 0,
+        rewritten: HashMap::new(),
       })
     }
   }
@@ -48,10 +53,17 @@ impl<P: Printer> InteractivePrinter<P> {
     utils::prompt(VIEW_PROMPT, "qe", Some('\n')).expect("cannot fail")
   }
 
-  fn rewrite_action(&self, diffs: Diffs<()>, path: &PathBuf) -> Result<()> {
+  fn rewrite_action(&mut self, mut diffs: Diffs<()>, path: &PathBuf) -> Result<()> {
     if diffs.contents.is_empty() {
       return Ok(());
     }
+    // keep the edits of the file's other documents instead of overwriting them
+    if let Some(previous) = self.rewritten.remove(path) {
+      let dropped;
+      (diffs.contents, dropped) = merge_diffs(previous, diffs.contents);
+      self.committed_cnt = self.committed_cnt.saturating_sub(dropped);
+    }
+    self.rewritten.insert(path.clone(), diffs.contents.clone());
     let new_content = apply_rewrite(diffs);
     if self.from_stdin {
       println!("{new_content}");
@@ -127,6 +139,7 @@ where
   }
 }
 
+#[derive(Clone)]
 pub struct InteractiveDiff<D> {
   /// string content for the replacement
   replacement: String,
@@ -310,6 +323,28 @@ fn print_diff_and_prompt_action<P: Printer>(
       _ => Ok((false, false)),
     }
   })
+}
+
+/// Merge the accepted edits of two documents of one file, ordered by position.
+/// A later edit overlapping an already written one is dropped; returns the number dropped.
+fn merge_diffs(
+  previous: Vec<InteractiveDiff<()>>,
+  current: Vec<InteractiveDiff<()>>,
+) -> (Vec<InteractiveDiff<()>>, usize) {
+  let mut merged = previous;
+  let mut dropped = 0;
+  for diff in current {
+    let overlaps = merged
+      .iter()
+      .any(|d| diff.range.start < d.range.end && d.range.start < diff.range.end);
+    if overlaps {
+      dropped += 1;
+    } else {
+      merged.push(diff);
+    }
+  }
+  merged.sort_by_key(|d| d.range.start);
+  (merged, dropped)
 }
 
 fn apply_rewrite(diffs: Diffs<()>) -> String {
